@@ -1,6 +1,6 @@
 SPECIFICATION TraceSpec
 CONSTANTS
-  Bases = {"B1", "B2", "B3"}
+  Bases = {"B1", "B2", "B3", "B4"}
   Forms = {"self", "newtype", "alias", "salias", "final", "classvar", "fref", "nref", "aref", "sref", "nt_al", "nt_nt", "nt_sal", "fin_nt"}
   Emit = FALSE
 INVARIANT MemoSound
